@@ -126,7 +126,7 @@ pub fn run(tier: Tier, seed: u64) -> Report {
     let r = run_pbt(
         "rings",
         seed,
-        tier.pick(4_000, 150_000),
+        tier.pick(40_000, 1_000_000),
         || (picks(0, 29, 5), 0u8..7, any::<bool>()).boxed(),
         |(p, nsel, closed), st| {
             let (id, c, label) = p.resolve()?;
